@@ -2135,6 +2135,11 @@ class AbelianArray(BlockBase):
             newshape = tuple(newshape)
         newshape = find_full_reshape(newshape, self.size)
 
+        if newshape == x.shape:
+            # nothing to do, n.b. parsing would otherwise unfuse and regroup
+            # a fused axis that is followed by matching singleton axes
+            return x
+
         subsizes = tuple(
             None
             if ix.subinfo is None
